@@ -97,8 +97,11 @@ func (n *node[T]) AllowHeader() string {
 }
 
 // Methods 当前节点支持的请求方法
+//
+// 返回的是副本：methodIndexes 中的切片由进程内所有的路由共享，
+// 不能让调用方（[Tree.Routes] 的返回值、处理函数中的 Node().Methods()）有机会修改它。
 func (n *node[T]) Methods() []string {
-	return getMethodIndexEntity(int(n.allowIndex.Load())).methods
+	return slices.Clone(getMethodIndexEntity(int(n.allowIndex.Load())).methods)
 }
 
 func getMethodIndexEntity(index int) methodIndexEntity {
